@@ -258,7 +258,7 @@ def tasks(tier, seed):
         for ci, p in enumerate(d.configs(tier)):
             if name == "CUSUM" and p["burn_in"] == 0:
                 continue
-            for pre in drift_prefixes(name, p):
+            for pre in drift_prefixes(name, p, seeder=(lambda pos, n=name, i=ci: rng.seed_step(0 if pos == "init" else seed, n, i, pos))):
                 out.append(
                     {
                         "system": name,
